@@ -420,6 +420,8 @@ impl WorldB {
                         sx.rx_seen.insert(seq);
                         sx.rx_highest = Some(sx.rx_highest.map(|h| h.max(seq)).unwrap_or(seq));
                         sx.rx_taint = true;
+                        // (and its receive timer has been refreshed: the "silent for longer than the timeout" clause counts from here)
+                        sx.lenient_ms = self.sv_ms;
                     }
                 }
             }
